@@ -391,4 +391,11 @@ def stateless(fx, prop):
         md = _mutable_defaults(fi.node)
         if md:
             probs.append(f'mutable default argument(s) {md}')
+        for n in src.walk_local(fi.node):
+            if isinstance(n, ast.Compare) and any(isinstance(o, (ast.Is, ast.IsNot)) for o in n.ops):
+                for side in [n.left] + list(n.comparators):
+                    val = _value_of(fx, k[0], side)
+                    if isinstance(val, (str, bytes, float, tuple, frozenset)) or (isinstance(val, int) and not isinstance(val, bool) and not -5 <= val <= 256):
+                        probs.append(f'identity test against the value {val!r:.30} (the outcome depends on which object is passed, not on its value): `{ast.unparse(n)[:60]}` at line {n.lineno}')
+                        break
         yield Ob(f'{fi.name}: keeps no state between calls', not probs, fi.name, fi.node.lineno, '; '.join(probs) or 'stateless', 'stateless', True)
